@@ -2,7 +2,8 @@
 
 Part 1 (types): for generated type expressions t (scalars, enum, path, List, Dict[str, .], top-level Optional, configuration
 classes with subclassing, task classes) a class with one parameter of type t is created inside xvmodels and candidate values
-(conforming, or off by one constructor at a random depth) are assigned; a reference validator written from the
+(conforming, or off by one constructor at a random depth) are given at construction, assigned afterwards, or declared as the
+parameter's default and left alone (scalars, enums, paths and containers of them); a reference validator written from the
 documentation decides: a conforming value must be accepted and read back equal (after the documented coercions);
 whenever the assignment does not raise, the stored value must be of type t.
 
@@ -36,7 +37,7 @@ ASSUMPTIONS = [
 ]
 SHARDS = {"quick": 16, "thorough": 16}
 MINIMUMS = {
-    "quick": {"distinct_nontrivial": 10000, "assignments": 30000, "conforming_accepted": 10000, "ill_typed_rejected": 8000, "removal_cases": 2000, "removal:list": 100, "removal:dict": 100, "removal:direct": 200, "removal:pre-task": 50, "removal:init-task": 100, "removal_normal_mode": 500},
+    "quick": {"distinct_nontrivial": 10000, "values_as_declared_default": 2000, "assignments": 30000, "conforming_accepted": 10000, "ill_typed_rejected": 8000, "removal_cases": 2000, "removal:list": 100, "removal:dict": 100, "removal:direct": 200, "removal:pre-task": 50, "removal:init-task": 100, "removal_normal_mode": 500},
     "thorough": {"distinct_nontrivial": 120000, "assignments": 300000, "conforming_accepted": 90000, "ill_typed_rejected": 70000, "removal_cases": 20000, "removal:list": 1500, "removal:dict": 1500, "removal:direct": 3000, "removal_normal_mode": 5000},
 }
 N = {"quick": (48000, 4000), "thorough": (1200000, 100000)}
@@ -44,6 +45,7 @@ TIMEOUT = {"quick": 900, "thorough": 10800}
 
 _DYN = None
 _CLASSES = {}
+_DEFAULTS = [0]
 
 
 def dyn_module():
@@ -347,11 +349,26 @@ def part1(ctx, rng, n, w):
         except Reject:
             accept, strict, want = False, True, None
         ctx.count("assignments")
-        via_init = rng.random() < 0.5
+        via = rng.choice(["constructor", "constructor", "assignment", "assignment", "default"])
+        if via == "default" and (v is None or "'cfg'" in repr(t)):
+            # a None default is "no default"; configuration-valued defaults are cloned per instance (by design), which the
+            # identity-based comparison below cannot express: the default route covers scalars, enums, paths and containers
+            via = "constructor"
+        via_init = via == "constructor"
         raised = None
         stored = None
         try:
-            if via_init:
+            if via == "default":
+                # the value is the declared default of the parameter and the parameter is left alone
+                from experimaestro import Config, Param
+
+                _DEFAULTS[0] += 1
+                name = f"D{_DEFAULTS[0]}"
+                dcls = type(name, (Config,), {"__module__": "xvmodels.dyn", "__qualname__": name, "__xpmid__": f"xvmodels.dyn.{name.lower()}", "__annotations__": {"p": Param[to_typing(t)]}, "p": v})
+                setattr(dyn_module(), name, dcls)
+                ctx.count("values_as_declared_default")
+                o = dcls()
+            elif via_init:
                 o = cls(p=v)
             else:
                 o = cls()
@@ -360,7 +377,7 @@ def part1(ctx, rng, n, w):
             readback = o.p
         except Exception as e:
             raised = e
-        wit = {"type": repr(t), "value": show(v), "via": "constructor" if via_init else "assignment"}
+        wit = {"type": repr(t), "value": show(v), "via": via}
         desc = {"t": repr(t), "v": show(v), "k": kind}
         if v is None and not (isinstance(t, tuple) and t[0] == "opt"):
             # None for a required parameter: must be rejected (documented: 'Cannot set required attribute to None')
